@@ -7,7 +7,7 @@
 //! them from the struct definitions, so field order and kinds come from the source of this run).
 //!
 //! Case line:  `comp <T> code=<n> name=<hex> kinds=<O|M|D|U per field> names=<wire names> dflts=<hex|-,..> fields=<hex,..> <form> <hex bytes|->`
-//!   form `canon`: the implementation's line is `enc=<to_vec(x)> dec=<fields of from_slice(to_vec(x))>`,
+//!   form `canon`: the implementation's line is `enc=<to_vec(x)> size=<serialized_size(x)> dec=<fields of from_slice(to_vec(x))>`,
 //!                 the model's is `enc_composite` and `dec_composite` of it;
 //!   form `var`:   the bytes are a layout built here from the field vector (absent fields as null or
 //!                 written out, trailing absent fields kept or dropped, list8/list32 header, descriptor
@@ -192,7 +192,15 @@ fn run_item<T: Comp + Serialize + DeserializeOwned>(x: &T, r: &mut Rng, out: &mu
     };
     let dec = decode_fields::<T>(&enc);
     let line = format!("{} canon -", head);
-    out.case(&line, &format!("enc={} dec={} enum={}", hex(&enc), dec, decode_via_enum(T::CODE, &enc)));
+    let size = match catch_unwind(AssertUnwindSafe(|| serde_amqp::serialized_size(x))) {
+        Ok(Ok(n)) => n.to_string(),
+        Ok(Err(_)) => "ERR".to_string(),
+        Err(_) => "PANIC".to_string(),
+    };
+    if size != enc.len().to_string() {
+        out.violation("c20-comp-size", &format!("serialized_size reports {} for a composite whose encoding has {} octets", size, enc.len()), &line);
+    }
+    out.case(&line, &format!("enc={} size={} dec={} enum={}", hex(&enc), size, dec, decode_via_enum(T::CODE, &enc)));
     out.nontrivial(&line);
     if normal && dec != expect {
         out.violation("c03-comp-roundtrip", &format!("from_slice(to_vec(x)) has fields {} instead of {}", dec, expect), &line);
